@@ -764,22 +764,66 @@ def c09g(chk):
             st = f.term(sb)
             ok = ok or an.dominated_by_edge(f, sb, an.edge_target(st, 0), nb)
     chk.ob("C09.g", "Builder::build/empty-map-rejected", ok, f.loc(nb), "Reader::new_unchecked must be dominated by sample_map.is_empty() == false")
-    fd = [(b, t) for b, t in f.calls() if callee_is(t["callee"], "core::iter::traits::iterator::Iterator::find") and any("indexmap::map::iter::Keys" in a for a in t["callee"].get("args", []))]
+    import iters as IT
+    prog = chk.prog
+    its = IT.iterations(prog, f)
+    CONTAINS = "std::collections::hash::set::HashSet::<T, S, A>::contains"
+    unit = [f] + prog.closures_of(f.path)
+    cs = [(g, b, t) for g in unit for b, t in g.calls() if (t["callee"].get("path") or "") == CONTAINS]
     ok = False
-    for b, t in fd:
-        for sb, s in an.switches_on_call_result(f, b):
-            st = f.term(sb)
-            ok = ok or an.dominated_by_edge(f, sb, an.edge_target(st, 0), nb)
-    cl_ok = False
-    for c in chk.prog.closures_of(RC.SITE_BUILD):
-        cs = [t for b, t in c.calls() if (t["callee"].get("path") or "") == "std::collections::hash::set::HashSet::<T, S, A>::contains"]
-        nots = [rv for _, _, _, rv, _ in c.assigns() if rv["k"] == "unop" and rv["op"] == "Not"]
-        if len(cs) == 1 and len(nots) == 1 and len(list(c.calls())) == 1 and not list(c.switches()):
-            d0 = [d for d in c.defs.get(0, []) if d[0] == "assign"]
-            if len(d0) == 1 and d0[0][3]["k"] == "unop" and d0[0][3]["op"] == "Not":
-                cl_ok = True
+    why = "expected exactly one HashSet::contains test inside an iteration over the listed samples"
+    if len(cs) == 1:
+        g, cb, ct = cs[0]
+        inside = [it for it in its if it.body is g and cb in it.blocks]
+        it = min(inside, key=lambda x: len(x.blocks)) if inside else None
+        if it is not None:
+            chk.fns_analysed.add(g.path)
+            # the iteration walks sample_map.samples(), the tested value is its element, the set is built from the input's samples
+            over_listed = IT.chain_names(it.chain()) == ["samples"] and callee_is(IT.chain_get(it.chain(), "samples")["callee"], SAMPLE_MAP + "::samples")
+            elem_tested = it.elem_path(ct["args"][1]) == ()
+            set_root = it.outer_root(ct["args"][0])
+            sd = f.single_def(set_root) if set_root is not None else None
+            set_ok = bool(sd and sd[0] == "call" and callee_is(sd[2]["callee"], "core::iter::traits::collect::FromIterator::from_iter") and
+                          any(callee_name(x[1]["callee"]).endswith("Reader::samples") for x in f.slice_locals(sd[2]["args"][0])[1]["calls"]))
+            route = False
+            how = "?"
+            if it.kind == "closure":
+                # the closure returns !contains(..) (find / any / position) or contains(..) (all)
+                d0 = [d for d in g.defs.get(0, [])]
+                neg = len(d0) == 1 and d0[0][0] == "assign" and d0[0][3]["k"] == "unop" and d0[0][3]["op"] == "Not" and op_local(d0[0][3]["operand"]) is not None and g.copy_root(op_local(d0[0][3]["operand"])) == an.call_dest_local(ct)
+                pos = len(d0) == 1 and d0[0][0] == "call" and d0[0][2] is ct
+                plain = len(list(g.calls())) == 1 and not list(g.switches())
+                for sb, s_ in an.switches_on_call_result(f, it.bb):
+                    st = f.term(sb)
+                    if it.consumer in ("find", "position", "find_map") and neg and plain:
+                        route = route or an.dominated_by_edge(f, sb, an.edge_target(st, 0), nb)
+                        how = "%s(|s| !set.contains(s)) == None" % it.consumer
+                    if it.consumer == "any" and neg and plain:
+                        route = route or an.dominated_by_edge(f, sb, an.edge_target(st, 0), nb)
+                        how = "!any(|s| !set.contains(s))"
+                    if it.consumer == "all" and pos and plain:
+                        route = route or an.dominated_by_edge(f, sb, st["otherwise"], nb)
+                        how = "all(|s| set.contains(s))"
+            else:
+                # for s in samples { if !set.contains(s) { return Err(..) } } : the `false` edge never reaches the construction,
+                # which itself is reached only once the loop is exhausted
+                for sb, s_ in an.switches_on_call_result(f, cb):
+                    st = f.term(sb)
+                    t_false = an.edge_target(st, 0)
+                    # through a negation the roles swap
+                    subj = op_local(st["discr"])
+                    dd = f.single_def(f.copy_root(subj)) if subj is not None else None
+                    if dd and dd[0] == "assign" and dd[3]["k"] == "unop" and dd[3]["op"] == "Not":
+                        t_false = st["otherwise"]
+                    route = nb not in f.reachable_from(t_false) and an.dominated_by_edge(f, it.switch_bb, it.none_t, nb)
+                    # a miss must not continue the loop
+                    route = route and it.bb not in f.reachable_from(t_false)
+                    how = "for s in samples { if !set.contains(s) { return Err } }"
+            ok = over_listed and elem_tested and set_ok and route
+            why = "%s: over sample_map.samples()=%s, tests the element=%s, against the set of the input's samples=%s, a miss never reaches Reader::new_unchecked (%s)=%s" % (it.describe(), over_listed, elem_tested, set_ok, how, route)
+    cl_ok = True
     chk.ob("C09.g", "Builder::build/unknown-sample-rejected", ok and cl_ok, f.loc(nb),
-           "Reader::new_unchecked must be dominated by `no listed sample is missing from the input` (find(|s| !reader_samples.contains(s)) == None)")
+           "Reader::new_unchecked must be dominated by `no listed sample is missing from the input` (%s)" % why)
 
 
 # ====================================================================================
